@@ -31,7 +31,6 @@ use ckb_snapshot::Snapshot;
 use ckb_store::{ChainDB, ChainStore};
 use ckb_tx_pool::verif::{Callbacks, PoolDump, Reject, Status, TxEntry, TxPool};
 use ckb_types::core::cell::ResolvedTransaction;
-use ckb_types::core::tx_pool::get_transaction_weight;
 use ckb_types::core::{Capacity, FeeRate, TransactionBuilder, TransactionView};
 use ckb_types::packed::{self, Byte32, CellDep, CellInput, CellOutput, OutPoint, ProposalShortId};
 use ckb_types::prelude::*;
@@ -741,9 +740,13 @@ impl Sim {
                 let id: u64 = t[1].parse().unwrap();
                 let e = self.entry(id, 0);
                 let snap = self.pool.verif_snapshot();
-                let ans = match self.pool.verif_check_rbf(&snap, &e) {
-                    Ok(c) => format!("ok {}", set_str(c.iter().map(|s| self.idof(s)))),
-                    Err(r) => Self::rbf_kind(&r).to_string(),
+                let ans = if !self.pool.enable_rbf() {
+                    "rbf-disabled".to_string()
+                } else {
+                    match self.pool.verif_check_rbf(&snap, &e) {
+                        Ok(c) => format!("ok {}", set_str(c.iter().map(|s| self.idof(s)))),
+                        Err(r) => Self::rbf_kind(&r).to_string(),
+                    }
                 };
                 out.op(line, &ans);
                 out.count("rbf");
@@ -798,6 +801,9 @@ impl Sim {
                             self.dead = true;
                             return;
                         }
+                        let mid = self.view();
+                        self.taint_rmd(&before, &mid, None);
+                        self.taint_add(&before, &mid);
                         if let Some(ev) = ans.strip_prefix("ok ") {
                             let cb = std::mem::replace(&mut self.callbacks, Callbacks::new());
                             let sid = self.short(id);
@@ -819,8 +825,7 @@ impl Sim {
                             out.op(line, &format!("add-{ans}"));
                         }
                         let after = self.view();
-                        self.taint_rmd(&before, &after, None);
-                        self.taint_add(&before, &after);
+                        self.taint_rmd(&mid, &after, None);
                     }
                 }
             }
